@@ -7,6 +7,7 @@ import (
 	"path/filepath"
 	"sort"
 	"strings"
+	"sync"
 	"time"
 
 	"golang.org/x/tools/go/packages"
@@ -35,6 +36,7 @@ type Engine struct {
 	rawDeclared map[string]bool
 	specInfos   map[*VCGen]map[string]*specFnInfo
 	concurrency concurrencyModel
+	implCache   map[string][]types.Type
 	workDir     string
 	timeoutS    int
 	verbose     bool
@@ -111,7 +113,7 @@ func (eng *Engine) ifaceContract(c *ssa.CallCommon) *FuncContract {
 func newEngine(repo, specDir string) *Engine {
 	return &Engine{repo: repo, specDir: specDir, spkgs: map[string]*ssa.Package{}, allFuncs: map[string]*ssa.Function{},
 		ghosts: map[string]*ghostDecl{}, rawAccessors: map[string]rawAcc{}, lenFns: map[string]string{}, immHeaps: map[string]bool{},
-		rawDeclared: map[string]bool{}, specInfos: map[*VCGen]map[string]*specFnInfo{}, timeoutS: 10}
+		rawDeclared: map[string]bool{}, implCache: map[string][]types.Type{}, specInfos: map[*VCGen]map[string]*specFnInfo{}, timeoutS: 10}
 }
 
 // load loads the given module directories (relative to repo) with the verif tag.
@@ -268,15 +270,20 @@ func (eng *Engine) queryText(g *VCGen, o Obligation, lemmaFacts []string) string
 	return b.String()
 }
 
+var genMu sync.Mutex
+
 // verifyFunc generates and discharges the VCs of one function.
 func (eng *Engine) verifyFunc(fn *ssa.Function, fc *FuncContract) (res FuncResult) {
 	res.Func = fn.String()
 	res.Contract = fmt.Sprintf("%s:%d", fc.File, fc.Line)
 	start := time.Now()
+	genMu.Lock()
 	g := newVCGen(eng, fn, fc)
 	g.so.special = eng.specialSortFor(g)
 	var lemmaFacts []string
+	var texts []string
 	func() {
+		defer genMu.Unlock()
 		defer func() {
 			if r := recover(); r != nil {
 				switch e := r.(type) {
@@ -291,9 +298,12 @@ func (eng *Engine) verifyFunc(fn *ssa.Function, fc *FuncContract) (res FuncResul
 		}()
 		g.run()
 		lemmaFacts = eng.lemmaFacts(g, fc.Pkg, nil)
+		for _, o := range g.obls {
+			texts = append(texts, eng.queryText(g, o, lemmaFacts))
+		}
+		delete(eng.specInfos, g)
 	}()
 	res.GenS = time.Since(start).Seconds()
-	delete(eng.specInfos, g)
 	if res.Error != "" {
 		return
 	}
@@ -309,9 +319,13 @@ func (eng *Engine) verifyFunc(fn *ssa.Function, fc *FuncContract) (res FuncResul
 	res.Obls = make([]OblResult, len(g.obls))
 	parallelDo(len(g.obls), 4, func(i int) {
 		o := g.obls[i]
-		text := eng.queryText(g, o, lemmaFacts)
+		text := texts[i]
 		name := shortFuncName(fn) + "#" + o.Name
-		r := solve(eng.workDir, name, text, eng.timeoutS, nil)
+		to := eng.timeoutS
+		if o.Kind == "cover" {
+			to = 2 // a contradictory precondition is refuted at once; satisfiability of quantified contexts is rarely decided
+		}
+		r := solve(eng.workDir, name, text, to, nil)
 		or := OblResult{Obligation: o, Status: r.status, Backend: r.backend, TimeS: r.timeS, Output: r.output, File: filepath.Join(eng.workDir, sanitizeFile(name)+".smt2")}
 		if o.Kind == "cover" {
 			// must be satisfiable
